@@ -4,14 +4,21 @@
 # scratch worktree (build, full suite, demo fails with / passes without), then
 # runs the property's check against the changed tree, and stores everything in
 # /verif/seeded/<PROP>-<variant>/.
+# Environment: SEED_BASE=<commit> builds the worktree from that commit of /repo
+# instead of HEAD (for a change written before a later fix touched the same
+# lines); RECHECK=1 only re-runs the check (build, demo and suite results of the
+# stored meta.json are kept).
 set -u
 P=$1; V=$2; TIER=${3:-quick}
 SRC=/tmp/seed/out/$P-$V
+[ -f $SRC/patch.diff ] || SRC=/verif/seeded/$P-$V
+BASE=${SEED_BASE:-HEAD}
+RECHECK=${RECHECK:-0}
 WT=/tmp/wt/seedv-$P-$V
 export GOFLAGS=-mod=mod GOPROXY=off
 [ -f $SRC/patch.diff ] || { echo "no patch in $SRC"; exit 3; }
 git -C /repo worktree remove --force $WT >/dev/null 2>&1
-git -C /repo worktree add --detach $WT HEAD >/dev/null 2>&1 || exit 3
+git -C /repo worktree add --detach $WT $BASE >/dev/null 2>&1 || exit 3
 cd $WT
 DEMO_PATH=$(python3 -c "import json;print(json.load(open('$SRC/meta.json')).get('demo_path',''))")
 DEMO_CMD=$(python3 -c "import json;print(json.load(open('$SRC/meta.json')).get('demo_cmd',''))")
@@ -24,31 +31,44 @@ case "$rel" in /*) rel=$(echo "$rel" | sed "s|^.*/internal/|internal/|");; esac
 [ -d "$rel" ] && rel=$rel/$DEMO_FILE
 mkdir -p $(dirname $rel); cp $SRC/$DEMO_FILE $rel
 cmd=$(echo "$DEMO_CMD" | sed "s|/tmp/seed/$P-$V|$WT|g; s|^cd [^;&]*[;&]* *||")
+if [ "$RECHECK" = 1 ]; then
+  rm -f $rel
+  git apply $SRC/patch.diff || { res "PATCH DOES NOT APPLY to $BASE"; git -C /repo worktree remove --force $WT; exit 3; }
+  go build ./... > $WT/.build.log 2>&1; res "build with change: rc=$?"
+  rc_clean=-1; rc_mut=-1; rc_suite=-1
+else
 ( eval "$cmd" ) > $WT/.demo_clean.log 2>&1; rc_clean=$?
 res "demo on unchanged tree: rc=$rc_clean (expect 0)"
-git apply $SRC/patch.diff || { res "PATCH DOES NOT APPLY"; exit 3; }
+git apply $SRC/patch.diff || { res "PATCH DOES NOT APPLY to $BASE"; git -C /repo worktree remove --force $WT; exit 3; }
 go build ./... > $WT/.build.log 2>&1; res "build with change: rc=$?"
 ( eval "$cmd" ) > $WT/.demo_mut.log 2>&1; rc_mut=$?
 res "demo with change: rc=$rc_mut (expect non-zero)"
 rm -f $rel
 go test -count=1 -vet=off ./... > $WT/.suite.log 2>&1; rc_suite=$?
 res "suite with change: rc=$rc_suite (expect 0) $(grep -c '^FAIL' $WT/.suite.log) FAIL lines"
+fi
 cd /verif
 VERIF_REPO=$WT ./check $P $TIER > $WT/.check.log 2>&1; rc_check=$?
 res "check $P $TIER against change: rc=$rc_check ($(grep -c '^VIOLATION' $WT/.check.log) VIOLATION lines)"
 grep "witness key" $WT/.check.log | head -5 | cut -c1-250 | tee -a $WT/.seedlog
 grep "INCONCLUSIVE" $WT/.check.log | head -3 | cut -c1-250 | tee -a $WT/.seedlog
 D=/verif/seeded/$P-$V; mkdir -p $D
-cp $SRC/patch.diff $D/; cp $SRC/$DEMO_FILE $D/
-python3 - "$SRC/meta.json" "$D/meta.json" "$rc_clean" "$rc_mut" "$rc_suite" "$rc_check" "$TIER" "$rel" "$cmd" <<'PY'
+[ "$SRC" = "$D" ] || { cp $SRC/patch.diff $D/; cp $SRC/$DEMO_FILE $D/; }
+BASEH=$(git -C /repo rev-parse --short $BASE)
+python3 - "$SRC/meta.json" "$D/meta.json" "$rc_clean" "$rc_mut" "$rc_suite" "$rc_check" "$TIER" "$rel" "$cmd" "$BASEH" <<'PY'
 import json,sys
-src,dst,rc_clean,rc_mut,rc_suite,rc_check,tier,rel,cmd=sys.argv[1:10]
+src,dst,rc_clean,rc_mut,rc_suite,rc_check,tier,rel,cmd,base=sys.argv[1:11]
 m=json.load(open(src))
-m['confirmed']={'demo_rc_unchanged_tree':int(rc_clean),'demo_rc_with_change':int(rc_mut),'suite_rc_with_change':int(rc_suite),
+if int(rc_clean)==-1 and 'confirmed' in m:
+    m['confirmed']['check_rc_with_change']=int(rc_check); m['confirmed']['check_tier']=tier; m['confirmed']['rechecked_against']=base
+    m['detected']= int(rc_check)==1
+    json.dump(m,open(dst,'w'),indent=1)
+    sys.exit(0)
+m['confirmed']={'base':base,'demo_rc_unchanged_tree':int(rc_clean),'demo_rc_with_change':int(rc_mut),'suite_rc_with_change':int(rc_suite),
   'check_rc_with_change':int(rc_check),'check_tier':tier,'demo_placed_at':rel,'demo_cmd_used':cmd,
   'how':'lib/seedcheck.sh: fresh worktree of /repo HEAD; demo run before and after git apply patch.diff; go build; full suite; VERIF_REPO=<worktree> ./check'}
 m['detected']= int(rc_check)==1
 json.dump(m,open(dst,'w'),indent=1)
 PY
-cp $WT/.seedlog $D/run.log
+if [ "$RECHECK" = 1 ] && [ -f $D/run.log ]; then { grep -v "^check \|witness key\|INCONCLUSIVE\|^build with change" $D/run.log; cat $WT/.seedlog; } > $D/run.log.new; mv $D/run.log.new $D/run.log; else cp $WT/.seedlog $D/run.log; fi
 git -C /repo worktree remove --force $WT
